@@ -439,7 +439,9 @@ theorem getoptPath_quiet (c : Cfg) (name : Bytes) (hq : c.flags.ignoreUnknown = 
   unfold getoptPath getoptSecidx
   split
   · rfl
-  · simp [hq]
+  · split
+    · rfl
+    · simp [hq]
 
 /-- so "undeclared here" needs no separate quietness assumption -/
 theorem unknownHere_of (f : Frame) (name : Bytes) (hs : f.state = .s0) (hq : f.cfg.flags.ignoreUnknown = true)
